@@ -713,6 +713,7 @@ func (g *Gtp5g) CreateFAR(lSeid uint64, req *ie.IE) error {
 func (g *Gtp5g) UpdateFAR(lSeid uint64, req *ie.IE) error {
 	var farid uint64
 	var attrs []nl.Attr
+	var newAct *report.ApplyAction
 
 	ies, err := req.UpdateFAR()
 	if err != nil {
@@ -740,7 +741,7 @@ func (g *Gtp5g) UpdateFAR(lSeid uint64, req *ie.IE) error {
 				Type:  gtp5gnl.FAR_APPLY_ACTION,
 				Value: nl.AttrU16(act.Flags),
 			})
-			g.applyAction(lSeid, int(farid), act)
+			newAct = &act
 		case ie.UpdateForwardingParameters:
 			xs, err := i.UpdateForwardingParameters()
 			if err != nil {
@@ -766,6 +767,11 @@ func (g *Gtp5g) UpdateFAR(lSeid uint64, req *ie.IE) error {
 				Value: nl.AttrU8(v),
 			})
 		}
+	}
+
+	// the FAR ID IE may follow the Apply Action IE
+	if newAct != nil {
+		g.applyAction(lSeid, int(farid), *newAct)
 	}
 
 	oid := gtp5gnl.OID{lSeid, farid}
